@@ -147,6 +147,8 @@ func TestC08(t *testing.T) {
 	rec := ev.Get("C08")
 	rec.Rule = "world x batch of 0..6 operations (12 thorough) mixing valid queries, mutations, introspection, operations made invalid by an edit, verbatim repeats, operations whose downstream call fails (fault keyed by call content) and slow ones (delay keyed by call content), plain planner; oracle: the response is an array of the same length and element i equals (canonical data, error multiset) what operation i receives when posted alone to the same gateway under the same content-keyed rules; non-trivial = batch >=2 with >=1 valid and >=1 failing/invalid element; distinct by hash(case)"
 	defer census.dump("C08")
+	mixIntrospection = true
+	defer func() { mixIntrospection = false }()
 	maxOps := 6
 	if ev.Thorough() {
 		maxOps = 12
